@@ -55,6 +55,9 @@ def run(ctx: Ctx):
     ctx.extra["deepest_call_chain_followed"] = max([len(e.via) for e in summ] + [0])
     ctx.extra["call_resolution"] = dict(E.R.stats) if E.R.stats["calls"] else None
     ctx.extra["effects_of___call__"] = [e.describe() for e in summ if e.root[0] != "fresh"]
+    # every entry of the frame table is rewritten from the argument on every call (shared with C01-C03): a frame kept
+    # from an earlier call under some condition makes the result depend on the call history
+    exmap.table_entries(ctx, "R4.2")
 
     # ------------------------------------------------------------------ R4.1
     state_attrs = ["_equivalences", "_target_coordinates", "scale_factor", "_refmolecule", "_targetmolecule"]
